@@ -41,6 +41,11 @@ func main() {
 		sh, _ := strconv.Atoi(os.Args[4])
 		n, _ := strconv.Atoi(os.Args[5])
 		os.Exit(worker(os.Args[2], os.Args[3], sh, n, os.Args[6]))
+	case "isolated":
+		if len(os.Args) < 4 {
+			usage()
+		}
+		os.Exit(core.RunIsolated(os.Args[2], os.Args[3], os.Stdin, os.Stdout))
 	case "replay":
 		if len(os.Args) < 3 {
 			usage()
@@ -418,6 +423,33 @@ func run(id, tier string) int {
 				err := cmd.Run()
 				if ee, isExit := err.(*exec.ExitError); !(isExit && ee.ExitCode() == 1) {
 					ok = false
+				}
+			}
+			if !ok {
+				// Another kind of case failed with the same signature: it may be
+				// self-contained (e.g. a deliberate history case).
+				for _, a := range v.Alts {
+					w := *v
+					w.Kind, w.Msg, w.Case, w.Alts = a.Kind, a.Msg, a.Case, nil
+					wb, _ := json.MarshalIndent(&w, "", " ")
+					os.WriteFile(path, wb, 0o644)
+					good := true
+					for i := 0; i < 5 && good; i++ {
+						cmd := exec.Command(self, "replay", path)
+						cmd.Env = append(os.Environ(), "MC_REPLAY_QUIET=1", "MC_REPLAY_ONCE=1")
+						err := cmd.Run()
+						if ee, isExit := err.(*exec.ExitError); !(isExit && ee.ExitCode() == 1) {
+							good = false
+						}
+					}
+					if good {
+						*v = w
+						ok = true
+						break
+					}
+				}
+				if !ok {
+					os.WriteFile(path, b, 0o644)
 				}
 			}
 			if !ok && v.NShards > 0 {
